@@ -32,7 +32,7 @@ BOOL_OPS = ['logical_and', 'logical_or', 'logical_not', 'any']
 STRUCT = ['where', 'where_derived', 'log_softmax', 'getitem', 'iter', 'tolist', 'transpose', 't', 'T', 'permute', 'flatten', 'unsqueeze',
           'expand', 'expand_as', 'stack', 'clone', 'detach', 'copy_', 'to', 'default_to', 'project', 'dim_to_dense',
           'freshen', 'reshape', 'view', 'reshape_must', 'equal_self']
-ALL_OPS = FLOAT_BIN + SCALAR_BIN + INPLACE_T + UNARY + BOOL_OPS + STRUCT + ['where_derived', 'where_derived', 'reshape_must', 'project', 'log_softmax', 'div', 'div', 'mul', 'sub', 'copy_', 'maximum']
+ALL_OPS = FLOAT_BIN + SCALAR_BIN + INPLACE_T + UNARY + BOOL_OPS + STRUCT + ['where_derived', 'where_derived', 'reshape_must', 'project', 'project', 'log_softmax', 'div', 'div', 'mul', 'sub', 'copy_', 'maximum']
 SCALARS = (0.0, 1.0, -1.0, 2.0, 0.5, -3.0, math.inf, -math.inf)
 
 
@@ -76,6 +76,11 @@ def cases(draw, tier):
         steps.append({'op': 'to', 'a': 0, 'b': 0, 'c': 0, 'n1': 3, 'n2': 0, 'n3': 0, 'x': 0.0})
         steps.append({'op': draw(st.sampled_from(['mul_s', 'add_s', 'sub_s', 'eq_s', 'lt_s', 'ge_s'])), 'a': -1, 'b': 0, 'c': 0,
                       'n1': 0, 'n2': 0, 'n3': 0, 'x': draw(st.sampled_from([2.0, 1.0, 0.0, -1.0, 3.0]))})
+    elif scenario == 5:
+        # where on a tensor that carries one PhysicalAxis in several dimensions (diagonal) under a dense or broadcast condition
+        floats[0] = draw(gp.tensor_specs(tys, values=vals, p_dense=0.0, p_reuse=0.8, p_bcast=0.0))
+        boolean = draw(gp.tensor_specs(tys, dtype='bool', force_dense=draw(st.booleans()), p_bcast=0.5))
+        steps.append({'op': 'where', 'a': draw(st.sampled_from([0, 0, 1])), 'b': draw(st.sampled_from([1, 1, 0])), 'c': 0, 'n1': 0, 'n2': 0, 'n3': 0, 'x': 0.0})
     elif scenario <= 1:
         # identity-default scenario: the sparse operand's default is the identity of the operation, which selects the
         # "densify only the other operand" branches of add/sub/mul/div/maximum/logaddexp
@@ -460,6 +465,28 @@ def run_step(ctx, step, fl, bo, case, pool):
         ctx.require(e == unitAxis or (isinstance(e, PhysicalAxis) and id(e) not in others), 'dim-not-dense',
                     f'dim_to_dense({dim}) left axis {e} shared or non-physical', op=op)
         return r, A[1], True
+    if op == 'project' and n2 % 2 == 1 and A[1].ndim >= 2 and A[1].numel() > 0 and len(case['types']) == A[1].ndim and \
+       case['types'][0] == case['types'][-1] and tuple(A[1].shape) == tuple(gp.numel(T) for T in case['types']):
+        # the requested pattern is a transposed view of the tensor itself: its axes are the tensor's own PhysicalAxis objects
+        # in other roles (project must rename them apart before unifying)
+        tgt = lib('transpose', A[0].transpose, 0, A[1].ndim - 1)
+        r = lib(op, A[0].project, tgt.paxes, tgt.vaxes)
+        pshape = tuple(k.numel() for k in tgt.paxes)
+        n = 1
+        for x in pshape: n *= x
+        # index map of the requested pattern, read off a tensor of codes laid out in that pattern
+        codes = PatternedTensor(torch.arange(n, dtype=torch.float64).reshape(pshape), tgt.paxes, tgt.vaxes, -1.0)
+        cd = lib('to_dense', codes.to_dense)
+        ref = torch.full((n,), float('nan'), dtype=torch.float64)
+        Ad = A[1].to(torch.float64) if A[1].dtype != torch.bool else A[1].to(torch.float64)
+        for v in itertools.product(*[range(x) for x in cd.shape]):
+            c_ = int(cd[v])
+            if c_ >= 0: ref[c_] = Ad[v]
+        ref = ref.reshape(pshape)
+        ctx.label('project-onto-own-axes')
+        ctx.require(isinstance(r, torch.Tensor) and tuple(r.shape) == pshape and same(r.to(torch.float64), ref, True), 'wrong-result',
+                    f'project onto a transposed view of itself: got {r.tolist() if hasattr(r, "tolist") else r} expected {ref.tolist()}', op=op)
+        return None
     if op == 'project':
         spec = case['proj']
         tgt_shape = gp.virtual_shape(spec)
